@@ -24,7 +24,56 @@ pub fn slot_space(frames: &[usize], max_len: usize) -> u64 {
 /// Random multi-edit mutation of a generated well-formed document.
 pub fn mutation_case(rng: &mut Rng) -> (String, String) {
     let cfg = GenCfg { max_members: 4, max_type_depth: 3, ..GenCfg::default() };
-    let d = gen::doc(rng, &cfg);
+    let mut d = gen::doc(rng, &cfg);
+    if rng.chance(1, 8) {
+        // statement-level edit: the header statements (package, imports, forward declarations) and the item in a
+        // shuffled order, statements duplicated or dropped (the grammar fixes their order)
+        if d.imports.is_empty() {
+            d.imports.push(gen::qualified(rng, 2, 3));
+        }
+        if d.declared.is_empty() {
+            d.declared.push(crate::model::Declared { anns: vec![], segs: gen::qualified(rng, 1, 2) });
+        }
+        let r = gen::render(&d);
+        let text = |a: usize, b: usize| -> String { r.toks[a..=b].iter().map(|t| t.text.clone()).collect::<Vec<_>>().join(" ") };
+        let mut stmts: Vec<String> = Vec::new();
+        stmts.push(text(r.exp.package.anchor, r.exp.package.term.unwrap()));
+        for n in r.exp.imports.iter().chain(r.exp.declared.iter()) {
+            stmts.push(text(n.anchor, n.term.unwrap()));
+        }
+        let item = text(r.exp.item.anchor, r.exp.item.last);
+        let header_len = stmts.len();
+        match rng.below(4) {
+            0 => {
+                // swap two header statements (not the package)
+                if header_len > 2 {
+                    let a = rng.range(1, header_len - 1);
+                    let b = rng.range(1, header_len - 1);
+                    stmts.swap(a, b);
+                }
+                stmts.push(item);
+            }
+            1 => {
+                stmts.push(item);
+                rng.shuffle(&mut stmts);
+            }
+            2 => {
+                let k = rng.below(stmts.len());
+                let dup = stmts[k].clone();
+                let at = rng.below(stmts.len() + 1);
+                stmts.insert(at, dup);
+                stmts.push(item);
+            }
+            _ => {
+                // a header statement after the item
+                let k = rng.below(stmts.len());
+                let moved = stmts.remove(k);
+                stmts.push(item);
+                stmts.push(moved);
+            }
+        }
+        return ("statement_order".to_string(), stmts.join(rng.pick_str(&[" ", "\n", "  "])));
+    }
     let r = gen::render(&d);
     let mut pieces: Vec<String> = r.toks.iter().map(|t| t.text.clone()).collect();
     let n_edits = match rng.below(10) {
